@@ -111,4 +111,14 @@ CHECKS = {
                 "the extracted Coq model; non-trivial = >= 2 submissions, >= 2 layers and a preemption",
         "assumptions": ["PARTIAL: refinement of seq_eval by the composed implementation is validated by this differential, proved only per layer"],
     },
+    "C11": {
+        "modules": ["p_c11"],
+        "rule": "seeded scenarios on real stacks: depth 1-4 over the seven layer kinds, base sync or the real ThreadPoolExecutor, workload "
+                "idle/quick/failing (sleeping between retries)/blocked callables/polling, shutdown(wait True/False, with/without "
+                "cancel_futures) after a virtual delay, 0-2 submitters racing with it, a second shutdown, a submit afterwards; every "
+                "layer's shutdown() is wrapped to record calls and arguments; x {random, sticky, PCT} schedules; monitor: error message, "
+                "exactly-once propagation with the same arguments, idempotence, worker threads exited when shutdown(wait=True) returns, "
+                "no hang; non-trivial = some workload and a preemption",
+        "assumptions": ["PARTIAL: cross-layer propagation/joining is decided by the monitor on explored schedules; the gate protocol is proved for any number of threads"],
+    },
 }
